@@ -3,11 +3,11 @@ from ural.has_special_host import is_special_host
 
 
 class SuffixTrieNode(object):
-    __slots__ = ("children", "exception", "leaf", "private")
+    __slots__ = ("children", "exceptions", "leaf", "private")
 
     def __init__(self):
         self.children = None
-        self.exception = None
+        self.exceptions = None
         self.leaf = False
         self.private = False
 
@@ -22,9 +22,12 @@ class SuffixTrie(object):
         # Iterating over the suffix parts in reverse order
         for part in reversed(suffix.split(".")):
 
+            # NOTE: an exception rule does not make its parent a suffix by itself
             if part.startswith("!"):
-                node.exception = part[1:]
-                break
+                if node.exceptions is None:
+                    node.exceptions = set()
+                node.exceptions.add(part[1:])
+                return
 
             # To save up some RAM, we initialize the children dict only
             # when strictly necessary
@@ -59,7 +62,6 @@ class SuffixTrie(object):
 
         current_length = 0
         suffix_length = 0
-        match = None
         l = len(parts)
 
         node = self.__root
@@ -67,12 +69,13 @@ class SuffixTrie(object):
         for i in range(l - 1, -1, -1):
             part = parts[i]
 
-            # Cannot go deeper
-            if node.children is None:
+            # Exception rules prevail and yield their parent as suffix
+            if node.exceptions is not None and part in node.exceptions:
+                suffix_length = current_length
                 break
 
-            # Exception
-            if part == node.exception:
+            # Cannot go deeper
+            if node.children is None:
                 break
 
             child = node.children.get(part)
@@ -91,10 +94,9 @@ class SuffixTrie(object):
 
             if node.leaf:
                 suffix_length = current_length
-                match = node
 
-        # Checking the node we finished on is a leaf and is one we allow
-        if match is None or not match.leaf:
+        # No rule matched
+        if suffix_length == 0:
             return None
 
         # hostname = suffix ?
@@ -103,7 +105,7 @@ class SuffixTrie(object):
         else:
             offset = max(1, l - suffix_length)
 
-        return match, parts, offset
+        return parts, offset
 
     def split(self, url):
         result = self.__walk(url)
@@ -111,7 +113,7 @@ class SuffixTrie(object):
         if result is None:
             return None
 
-        _, parts, offset = result
+        parts, offset = result
 
         # hostname = suffix
         if offset < 0:
@@ -134,7 +136,7 @@ class SuffixTrie(object):
             return None
 
         # TODO: we can restrict to public or private here easily
-        _, parts, offset = result
+        parts, offset = result
 
         # hostname = suffix
         if offset < 0:
@@ -149,7 +151,7 @@ class SuffixTrie(object):
             return None
 
         # TODO: we can restrict to public or private here easily
-        _, parts, offset = result
+        parts, offset = result
 
         # hostname = suffix
         if offset < 0:
